@@ -53,6 +53,9 @@ def units(tier, seed):
         u.append({'k': 'stress', 'i': i})
     for i in range(10 if tier == 'quick' else 200):
         u.append({'k': 'loop', 'i': i})
+    # trees an order of magnitude larger and three times deeper, many offenders
+    for i in range(6 if tier == 'quick' else 300):
+        u.append({'k': 'gen', 'i': 100000 + i, 'n': 2, 'big': True})
     return u
 
 
@@ -244,11 +247,13 @@ def judge_multi(ctx, root, case):
                           subs, rc, 'a' if any_off else 'no'), case)
 
 
-def gen_case(rng, root):
+def gen_case(rng, root, big=False):
     nmut = rng.choice([2, 3, 4, 5, 6, 8, 12])
-    case, layout, info = scenario.build(
-        rng, root, CLASSES, nmut,
-        {'max_dirs': 7, 'max_files': 16, 'p_ignore': 0.3})
+    opts = {'max_dirs': 7, 'max_files': 16, 'p_ignore': 0.3}
+    if big:
+        nmut = rng.choice([5, 12, 25, 40])
+        opts = {'max_dirs': 40, 'max_files': 150, 'depth': 12, 'p_ignore': 0.3}
+    case, layout, info = scenario.build(rng, root, CLASSES, nmut, opts)
     dirs = scenario.existing_dirs(root)
     case['sub'] = '' if rng.random() < 0.65 else rng.choice(dirs)
     case['policy'] = rng.choice(POLICIES)
@@ -265,7 +270,9 @@ def run_gen(u, ctx):
         with common.Scratch('vf-c07-') as d:
             root = os.path.join(d, 't')
             try:
-                case = gen_case(rng, root)
+                case = gen_case(rng, root, big=bool(u.get('big')))
+                if u.get('big'):
+                    ctx.count('big_trees')
             except RuntimeError as exc:
                 ctx.discarded('generator: %s' % exc)
                 continue
